@@ -239,7 +239,15 @@ struct FlatSetEngine : EngineBase {
     std::advance(mit, pi);
     Val want = *mit;
     Val keyv = want;
-    if (absent) { keyv = EI<E>::norm(Val(99, 0)); }
+    if (absent) {
+      // a key that is really absent after normalisation to the element type (narrow element types fold large keys)
+      absent = false;
+      for (int k = 0; k < 60 && !absent; ++k) {
+        Val cand = EI<E>::norm(Val(k == 0 ? 99 : k, 0));
+        MonScope mm;
+        if (ms.count(cand) == 0) { keyv = cand; absent = true; }
+      }
+    }
     set_op(bykey ? "extract(key)" : "extract(pos)", st(b), absent ? "absent" : "present", fmt("S%d key=%d", b, keyv.key));
     typename Set::node_type *nh = nullptr;
     {
